@@ -145,9 +145,11 @@ pub fn gen(thorough: bool, rng: &mut Rng, out: &mut Vec<String>) {
         // the first (backward); a converter must store the structures in the order it was given
         if i % 5 == 0 && lib.structs.len() >= 2 {
             let ns = lib.structs.len();
-            for (k, st) in lib.structs.iter_mut().enumerate() { st.name = format!("s{}", k); }
+            // (names in DESCENDING order: the stored order is neither alphabetical nor define-before-use)
+            let names: Vec<String> = (0..ns).map(|k| format!("s{}", ns - k)).collect();
+            for (k, st) in lib.structs.iter_mut().enumerate() { st.name = names[k].clone(); }
             for k in 0..ns {
-                let target = format!("s{}", if k + 1 < ns { k + 1 } else { 0 });
+                let target = names[(k + 1) % ns].clone();
                 let mut has = false;
                 for e in lib.structs[k].elems.iter_mut() { match e { gds21::GdsElement::GdsStructRef(x) => { x.name = target.clone(); has = true; } gds21::GdsElement::GdsArrayRef(x) => { x.name = target.clone(); has = true; } _ => {} } }
                 if !has { lib.structs[k].elems.push(gds21::GdsElement::GdsStructRef(gds21::GdsStructRef { name: target, xy: gds21::GdsPoint::new(k as i32, 1), ..Default::default() })); }
